@@ -6,6 +6,7 @@ CONSTANTS
   FixD1 = TRUE
   FixD4 = TRUE
   FixD6 = TRUE
+  FixD8 = TRUE
   Debug = FALSE
   MaxB = 256
   ArgMode = "boundary"
